@@ -237,6 +237,33 @@ fn e2e_data(id: u8, mask: u32, running: bool, pos: u8) -> Result<bool, Fail> {
     v.check(&ihw(mask));
     v.check(&tdh(&t));
     let mut w = [0x11u8; 10];
+    if pos == 2 {
+        // the governing IHW is the one of a continuation page: IHW(other mask) TDH TDT(not done) IHW(mask) TDH(continuation) <word>
+        // (what was just checked is replayed: a fresh validator is simpler than undoing it)
+        drop(v);
+        while rx.try_recv().is_ok() {}
+        let (tx2, rx2) = flume::unbounded::<StatType>();
+        let mut v2: CdpRunningValidator<RdhCru, MockConfig> = CdpRunningValidator::new(cfg, tx2);
+        v2.set_current_rdh(&rdh, 0x1000);
+        v2.check(&ihw(!mask & 0x0FFF_FFFF));
+        v2.check(&tdh(&t));
+        v2.check(&tdt(0, 0, false, false, false));
+        v2.check(&ihw(mask));
+        v2.check(&tdh(&TdhF { continuation: true, ..t }));
+        w[9] = id;
+        v2.check(&w);
+        drop(v2);
+        let off = 0x1000 + 64 + 50;
+        let mut reported = false;
+        while let Ok(s) = rx2.try_recv() {
+            if let StatType::Error(e) = s {
+                if e.starts_with(&format!("{off:#X}:")) {
+                    reported = true;
+                }
+            }
+        }
+        return Ok(reported);
+    }
     if pos == 1 {
         // preceding data word: an active inner-barrel lane if there is one (whatever is reported for it is ignored)
         let lane = (0..9u8).find(|l| mask & (1 << l) != 0).unwrap_or(0);
@@ -275,8 +302,8 @@ fn data_enum_case(i: u64, w: &Worker) -> CaseResult {
     let reported_ref = data_predicates(id, mask)?;
     let mut out = CaseOut::default();
     // end to end (ids that are other legal words in the data state are not data words)
-    for pos in [0u8, 1] {
-        if id == ID_TDT || (id == ID_CDW && pos == 0) {
+    for pos in [0u8, 1, 2] {
+        if id == ID_TDT || (id == ID_CDW && pos != 1) {
             continue;
         }
         for running in [true, false] {
@@ -308,8 +335,8 @@ fn data_random_case(t: &mut Tape, _w: &Worker) -> CaseResult {
         let id = if t.chance(1, 2) { *t.pick(&OL_IDS) } else { t.u8() };
         let mask = t.u32() & 0x0FFF_FFFF;
         let r = data_predicates(id, mask)?;
-        let pos = t.below(2) as u8;
-        if id != ID_TDT && !(id == ID_CDW && pos == 0) {
+        let pos = t.below(3) as u8;
+        if id != ID_TDT && !(id == ID_CDW && pos != 1) {
             let got = e2e_data(id, mask, true, pos)?;
             if got != r {
                 return Err(Fail::new(
@@ -432,7 +459,7 @@ pub fn build() -> Property {
     Property {
         id: "C11",
         rule: "Per status word type (IHW, TDH, TDT, DDW0), enumerated completely: all 256 identifier bytes x {all-zero rest, valid rest}; with the right identifier every 1-bit (72) and 2-bit (2556) pattern over the other 72 bits, \
-               all-ones, inverted valid value, whole bytes FF. Data words: all 256 ids x 28 single-lane masks, empty mask and their complements, through the three predicates and end to end through the payload validator at two positions (directly after the TDH, where id 0xF8 is a calibration word, and behind a data word, where it is an invalid data word id) \
+               all-ones, inverted valid value, whole bytes FF. Data words: all 256 ids x 28 single-lane masks, empty mask and their complements, through the three predicates and end to end through the payload validator at three positions (directly after the TDH, where id 0xF8 is a calibration word; behind a data word, where it is an invalid data word id; on a continuation page whose IHW carries another active-lane mask than the first IHW) \
                (running and sanity-only). Plus proptest-random 80-bit values (64 per case) and end-to-end status words in the state that expects them. Oracle: independent reference predicates written from the documented bit layout. \
                Every enumerated case is distinct and non-trivial (both verdicts occur for every type: see label histogram).",
         assumptions: vec![
